@@ -179,26 +179,14 @@ impl Check for C07 {
         ]
     }
     fn required_counters(&self, _tier: Tier) -> Vec<String> {
-        vec![
-            "histories_conformant".into(),
-            "fixed_boundary_histories".into(),
-            "chunk_size_changes_announced".into(),
-            "fmt0_noext_first".into(),
-            "fmt1_noext_first".into(),
-            "fmt2_noext_first".into(),
-            "fmt3_noext_first".into(),
-            "fmt3_noext_continuation".into(),
-            "fmt0_ext_first".into(),
-            "fmt1_ext_first".into(),
-            "fmt2_ext_first".into(),
-            "fmt3_ext_first".into(),
-            "fmt3_ext_continuation".into(),
-            "fmt0_noext_continuation".into(),
-            "csid_2".into(),
-            "csid_3".into(),
-            "csid_4".into(),
-            "csid_5".into(),
-            "csid_6".into(),
-        ]
+        vec!["histories_conformant".into(), "fixed_boundary_histories".into(), "chunk_size_changes_announced".into(), "messages_checked".into()]
+    }
+    fn soft_counters(&self, _tier: Tier) -> Vec<String> {
+        // which formats and chunk streams the serializer chooses is its policy
+        let mut v: Vec<String> = Vec::new();
+        for k in ["fmt0_noext_first", "fmt1_noext_first", "fmt2_noext_first", "fmt3_noext_first", "fmt3_noext_continuation", "fmt0_ext_first", "fmt1_ext_first", "fmt2_ext_first", "fmt3_ext_first", "fmt3_ext_continuation", "fmt0_noext_continuation"] {
+            v.push(k.to_string());
+        }
+        v
     }
 }
